@@ -86,8 +86,8 @@ def stop_root(analysis: Analysis, spec) -> dict:
     ckey = ("attr", tasks.key(), "_cancel_save")
     for out in outs:
         kind, s, v = out
-        if kind == "raise" and v.cls.__name__ == "CancelledError":
-            continue
+        if kind == "raise" and v.cls.__name__ == "CancelledError" and "just cancelled" not in (v.what or ""):
+            continue  # cancellation of stop() itself is not judged
         saves = [i for i, e in enumerate(s.events) if e.kind == "opaque" and e.name == "persistence:Persistence.save_sensors"]
         cancels = [i for i, e in enumerate(s.events) if e.kind in ("call", "await") and isinstance(e.recv, V) and e.recv.key() == ckey]
         disconnects = [i for i, e in enumerate(s.events) if e.kind == "opaque" and e.name.endswith(".disconnect")]
@@ -126,6 +126,39 @@ def flag_writers(analysis: Analysis, res: RuleResult) -> None:
     first = stmts[0]
     ok_first = isinstance(first, ast.If) and unparse(first.test) in ("not self.need_save",) and all(isinstance(s, ast.Return) for s in first.body)
     res.add("C14-R3", "persistence:Persistence.save_sensors / the skip test reads only the dirty flag", ok_first, common.where(analysis, info, first), "`if not self.need_save: return`" if ok_first else f"first statement is `{unparse(first)[:60]}`")
+
+
+def pump_worker(analysis: Analysis, _spec) -> dict:
+    """The threaded pump: does every job it takes follow a fresh test of the stop event?"""
+    from .c01 import SEND_QUALS
+
+    ctx = analysis.context(analysis.versions[-1], "serial", "sync")
+    it = analysis.new_interp(ctx)
+    st, gw = analysis.gateway_state(it)
+    tasks = Sym(("attr", gw.key(), "tasks"), ("cls", ctx.tasks))
+    it.inline_skip = set(SEND_QUALS)
+    qkey = ("attr", tasks.key(), "queue")
+    bad = []
+    n = 0
+    for out in analysis.run_root(it, "task:SyncTasks._poll_queue", [], tasks, st):
+        kind, s, v = out
+        checked = False
+        for e in s.events:
+            if e.kind == "call" and e.name.endswith("Event.is_set"):
+                checked = True
+            elif e.kind in ("seqpop", "dictpop") and isinstance(e.recv, V) and e.recv.key() == qkey:
+                n += 1
+                if not checked:
+                    bad.append(describe_path(out, 14))
+                checked = False
+    return {"pops": n, "bad": bad[:2]}
+
+
+def pump_stops(analysis: Analysis, res: RuleResult, rule: str) -> None:
+    """After stop() the pump takes no further job: each job it takes follows a test of the stop event (a job
+    run after the final save - e.g. an id request answered over MQTT, whose disconnect is a no-op - is lost)."""
+    pw = common.pmap(analysis, pump_worker, ["x"])[0]
+    res.add(rule, "task:SyncTasks._poll_queue / every job taken from the queue follows a fresh test of the stop event", pw["pops"] > 0 and not pw["bad"], "mysensors/task.py", f"{pw['pops']} pop events, each after is_set()" if not pw["bad"] else "a job is taken without re-testing the stop event (e.g. `while self.queue or not stopped`): jobs queued at stop() still run after the final save", pw["bad"][0] if pw["bad"] else None)
 
 
 def alert_and_stop(analysis: Analysis, res: RuleResult, r1: str = "C14-R1", r2: str = "C14-R2") -> None:
@@ -178,6 +211,7 @@ def run(analysis: Analysis, tier: str) -> RuleResult:
     if n < 20:
         raise AnalysisError(f"C14-R1: only {n} mutating paths found (expected at least 20)")
     alert_and_stop(analysis, res)
+    pump_stops(analysis, res, "C14-R2")
     flag_writers(analysis, res)
     res.assumptions = ["persisted projection = keys of the JSON encoder's dict literals + insertions into the node/child maps", "external raise model sa/extmodel.py"]
     res.not_decided = ["the cross-thread window between the end of serialisation and the flag store"]
